@@ -26,7 +26,7 @@ RULE = (
     "Non-trivial reconciliation: contains a loss or a transfer."
 )
 ASSUMPTIONS = ["stub TeX measurer instead of a TeX engine", "loss location = species skipped by a vertical edge (refmodel/picture.py)"]
-BUDGET = {"quick": 300, "thorough": 3000}
+BUDGET = {"quick": 900, "thorough": 3000}
 KINDNAME = {"S": "SPECIATION", "D": "DUPLICATION", "T": "HORIZONTAL_TRANSFER"}
 STUBS = [("hash", 1), ("unit", 0), ("tall", 2), ("wide", 3)]
 
